@@ -574,8 +574,28 @@ inline Made gen_placed_kid(Ctx& g, int depth, LD s)
     if (g.b(0.7))
     {
         Xf x;
+        double uu[3];
         for (int i = 0; i < 3; ++i)
-            x.t[i] = LD(double(s) * g.u(-0.5, 0.5));
+        {
+            uu[i] = g.u(-0.5, 0.5);
+            x.t[i] = LD(double(s) * uu[i]);
+        }
+        // Tiny-offset class (no extra draw, so that older replay files decode
+        // as before): when the first component falls in the central 8% the
+        // whole translation is scaled down to s * 10^-2 .. 10^-6, i.e. offsets
+        // between the tolerance and its square root, where "is this still
+        // centred / the same surface" decisions are taken.
+        if (std::fabs(uu[0]) < 0.04)
+        {
+            for (int i = 0; i < 3; ++i)
+            {
+                double a = std::fabs(uu[i]);
+                double f = i == 0 ? (a * 1000 - std::floor(a * 1000)) : 2 * a;
+                double mag = std::pow(10.0, -2 - 4 * f);
+                x.t[i] = LD(double(s) * (uu[i] < 0 ? -mag : mag));
+            }
+            ++g.feat.n_tiny_offset;
+        }
         if (g.b(0.4))
             gen_rotation(g, x);
         g.desc << "@";
